@@ -357,6 +357,36 @@ def check(model, rep, tier):
             {'replacements': facts_t}, line=en_.node.lineno,
             witness='with cm() as obj.attr: ...   /   del (a[i()], b[j()])')
 
+  # each with-item is named from itself: the element handed to the naming step
+  # is the variable of the loop / comprehension that runs over node.items
+  vw = cls.methods.get('visit_With')
+  okw = vw is not None
+  n_items = 0
+  if okw:
+    wp = vw.params()[0]
+    for c_ in ast.walk(vw.node):
+      if isinstance(c_, ast.Call) and core.norm(c_.func) == 'self._ensure_node_in_anf' \
+          and len(c_.args) == 3 and core.norm(c_.args[1]) == "'items'":
+        n_items += 1
+        x_ = c_.args[2]
+        owner = None
+        for l_ in ast.walk(vw.node):
+          gens = l_.generators if isinstance(l_, (ast.ListComp, ast.GeneratorExp)) else (
+              [l_] if isinstance(l_, ast.For) else [])
+          for g_ in gens:
+            inside = any(y is c_ for y in ast.walk(l_.elt if not isinstance(l_, ast.For)
+                                                   else ast.Module(body=l_.body,
+                                                                   type_ignores=[])))
+            if inside and tpl.xnorm(vw, g_.iter, g_.iter) == wp + '.items':
+              owner = core.norm(g_.target)
+        okw = okw and owner is not None and core.norm(x_) == owner
+  rep.check(okw and n_items >= 1, 'ANF-BLOCKS', '%s:AnfTransformer:visit_With:each-item-from-itself' % ANF,
+            'every with-item must be replaced by the named form of *itself*: the '
+            'element handed to the naming step is the variable of the loop over '
+            'node.items (a variable left over from an earlier loop is the last item)',
+            line=vw.node.lineno if vw else None,
+            witness='with a as p, b as q:  ->  with b as q, b as q:')
+
   # ---------------------------------------------------------------- ANF-CLASSES
   m = model.module(ANF)
   dead = fieldtypes.dead_class_refs(m)
